@@ -9,7 +9,7 @@ from __future__ import annotations
 
 from .. import astutil as A
 from .. import listnp
-from ..alg import Obj, Poly, PyFunc, Undecided, to_poly
+from ..alg import FragmentFault, Obj, Poly, PyFunc, Undecided, to_poly
 from ..objmodel import World
 
 TC, PV = "src/pyhf/tensor/common.py", "src/pyhf/parameters/paramview.py"
@@ -108,6 +108,8 @@ def check(ctx, rid):
                     ctx.holds(rid, f"{site} [{'batched' if batched else 'flat'}]", "stitch by target position, split by position, split(stitch(d)) == d")
                 else:
                     ctx.violated(rid, tvc.methods["split"], f"_TensorViewer round trip {lab}", "split(stitch(d)) != d", expected=str(_s(arg)), found=str(_s(back)))
+        except FragmentFault as e:
+            ctx.violated(rid, tvc, f"_TensorViewer {lab}", f"on well-formed arguments the viewer indexes outside its own tensors -- also when flat and batched tensors are handled by ONE viewer object one after the other: {e}")
         except errs as e:
             ctx.unrecognised(rid, tvc, f"_TensorViewer {lab}", f"not interpretable: {type(e).__name__}: {e}")
 
@@ -120,6 +122,8 @@ def check(ctx, rid):
             ctx.holds(rid, f"{TC}::_TensorViewer.split(selection=names)", "parts selected by name, in the order asked")
         else:
             ctx.violated(rid, tvc.methods["split"], "_TensorViewer.split(selection)", "a named selection does not return the index sets registered under those names, in the requested order", expected="[[x4], [x2, x3]]", found=str(_s(sp)))
+    except FragmentFault as e:
+        ctx.violated(rid, tvc, "_TensorViewer.split(selection)", f"on well-formed arguments the viewer indexes outside its own tensors -- also when flat and batched tensors are handled by ONE viewer object one after the other: {e}")
     except errs as e:
         ctx.unrecognised(rid, tvc, "_TensorViewer.split(selection)", f"not interpretable: {type(e).__name__}: {e}")
 
@@ -160,6 +164,8 @@ def check(ctx, rid):
                 else:
                     what = "index_selection" if got_sel != want_sel else ("indices_concatenated" if got_cat != want_cat else "get(data)")
                     ctx.violated(rid, pvc.methods["__init__"], f"ParamViewer [{lab}]", f"the parameter viewer's {what} does not address the selected parameter sets' own slices (row-major flat positions row*npars + j, j in the set's slice; component-major when batched)", expected=str({"index_selection": want_sel, "indices_concatenated": want_cat, "get": want_get}[what if what != "get(data)" else "get"]), found=str({"index_selection": got_sel, "indices_concatenated": got_cat, "get": got_get}[what if what != "get(data)" else "get"]))
+            except FragmentFault as e:
+                ctx.violated(rid, pvc, f"ParamViewer [{lab}]", f"on well-formed arguments the viewer indexes outside its own tensors -- also when flat and batched tensors are handled by ONE viewer object one after the other: {e}")
             except errs as e:
                 ctx.unrecognised(rid, pvc, f"ParamViewer [{lab}]", f"not interpretable: {type(e).__name__}: {e}")
     # empty selection
@@ -172,5 +178,7 @@ def check(ctx, rid):
             ctx.holds(rid, f"{PV}::ParamViewer [empty selection]", "no indices; get -> None")
         else:
             ctx.violated(rid, pvc.methods["get"], "ParamViewer [empty selection]", "a viewer with nothing selected must select nothing", found=f"index_selection={pv.attrs.get('index_selection')}, get={g}")
+    except FragmentFault as e:
+        ctx.violated(rid, pvc, "ParamViewer [empty selection]", f"on well-formed arguments the viewer indexes outside its own tensors -- also when flat and batched tensors are handled by ONE viewer object one after the other: {e}")
     except errs as e:
         ctx.unrecognised(rid, pvc, "ParamViewer [empty selection]", f"not interpretable: {type(e).__name__}: {e}")
